@@ -26,7 +26,7 @@ RULE = (
     "shared between a target and unrelated definitions, same-identity twins in another directory / file, dangling references next to other versions of the missing name, references that match a definition only "
     "up to letter case, deprecated dependencies with newer unreferenced versions, and every acyclic 3-node graph of two C09 assignments; operations read_namespace and read_files for "
     "every single target and the full target set; every definition file that ref.ns places outside the closure (lookup roots; for "
-    "read_files also the targets' own roots) x 42 replacement texts (token garbage, one per static-rule class, failing assert, @print, "
+    "read_files also the targets' own roots) x 44 replacement texts (two of them not decodable as UTF-8) (token garbage, one per static-rule class, failing assert, @print, "
     "another kind / sealing / extent than its sibling versions, references to missing or cyclic types, huge / empty / binary text). "
     "History part: every (configuration, operation, definition inside the closure broken by garbage / by a failing assert placed after its references) "
     "followed in the same process by each of 5 unrelated valid calls, whose outcome must equal the reference closure and the same call made before. "
@@ -45,6 +45,7 @@ REPLACEMENTS = [
     "Nope.1.0 missing\n@sealed\n", "uint8 K = 256\n@sealed\n", "uint8 K = '\\ud800'\n@sealed\n", "@print (-8) ** (1/3)\n@sealed\n", "@print '\\UFFFFFFFF'\n@sealed\n",
     "\x00\x01\x02", "\ufeff@sealed\n", "uint8 a\r\n@sealed", "#" * 5000 + "\n@sealed\n", "\n".join("uint8 f%d" % i for i in range(300)) + "\n@sealed\n", "@print " + "(" * 80 + "1" + ")" * 80 + "\n@sealed\n",
     "@deprecated\nuint8 a\n@sealed\n", "SELF_PLACEHOLDER r\n@sealed\n", "uint8 a\n@sealed\n# trailing", "@sealed",
+    b"\xff\xfe not text at all \x80\x81\n@sealed\n", b"uint8 a # caf\xe9 in Latin-1\n@sealed\n",
 ]
 
 
@@ -75,6 +76,13 @@ def extra_configs():
     dep = "@deprecated\n"
     C["deprecated-dependency-with-newer-versions"] = {"root": "ra", "lookups": ["rb"], "defs": [D("ra", "ra.A", (1, 0), [("rb.X", (1, 0))], text=dep + "rb.X.1.0 r0\nuint8[1] payload\n@sealed\n"), D("rb", "rb.X", (1, 0), text=dep + "uint8[2] payload\n@sealed\n"), D("rb", "rb.X", (1, 1)), D("rb", "rb.X", (2, 0)), D("rb", "rb.X", (0, 9))]}
     C["deprecated-chain"] = {"root": "ra", "lookups": ["rb"], "defs": [D("ra", "ra.A", (1, 0), [("rb.X", (1, 0))], text=dep + "rb.X.1.0 r0\n@sealed\n"), D("rb", "rb.X", (1, 0), [("rb.Y", (1, 0))], text=dep + "rb.Y.1.0 r0\n@sealed\n"), D("rb", "rb.Y", (1, 0), text=dep + "@sealed\n"), D("rb", "rb.Y", (1, 1)), D("rb", "rb.X", (1, 1), [("rb.Y", (1, 1))])]}
+    # beyond three of everything: 9 / 12 dependencies in ONE lookup directory next to unreferenced siblings; a root of 70 definitions;
+    # a dependency chain deeper than the interpreter allows (outcome: an error) whose files mention an unreferenced definition in a COMMENT
+    C["many-dependencies-one-directory"] = {"root": "ra", "lookups": ["rb"], "defs": [D("ra", "ra.A", (1, 0), [("rb.X%d" % i, (1, 0)) for i in range(9)])] + [D("rb", "rb.X%d" % i, (1, 0)) for i in range(9)] + [D("rb", "rb.Unref", (1, 0)), D("rb", "rb.s.Unref2", (1, 0))]}
+    C["many-dependencies-two-users"] = {"root": "ra", "lookups": ["rb"], "defs": [D("ra", "ra.A", (1, 0), [("rb.X%d" % i, (1, 0)) for i in range(6)]), D("ra", "ra.B", (1, 0), [("rb.X%d" % i, (1, 0)) for i in range(5, 12)])] + [D("rb", "rb.X%d" % i, (1, 0)) for i in range(12)] + [D("rb", "rb.Unref", (1, 0))]}
+    C["wide-root"] = {"root": "ra", "lookups": ["rb"], "defs": [D("ra", "ra.T%02d" % i, (1, 0), [("rb.X", (1, 0))] if i % 10 == 0 else []) for i in range(70)] + [D("rb", "rb.X", (1, 0)), D("rb", "rb.Unref", (1, 0))]}
+    chain = [D("ra", "ra.C%03d" % i, (1, 0), text=("# mentions rb.Unref.1.0 and ra.Nowhere.1.0 in a comment\n" + ("C%03d.1.0 next\n" % (i + 1) if i < 119 else "") + "uint8 v\n@sealed\n")) for i in range(120)]
+    C["deep-chain-with-comment"] = {"root": "ra", "lookups": ["rb"], "defs": chain + [D("rb", "rb.Unref", (1, 0))], "outside_override": [120], "rn_only": True}
     C["target-fails"] = {"root": "ra", "lookups": ["rb"], "defs": [D("ra", "ra.A", (1, 0), text="uint8 a\n@assert false\n@sealed\n"), D("rb", "rb.X", (1, 0)), D("rb", "rb.Y", (1, 0))]}
     return C
 
@@ -162,6 +170,8 @@ BREAKAGES = ["garbage", "assert-after-references", "intact"]
 
 def history_cases():
     for name, cfg in sorted(all_configs().items()):
+        if len(cfg["defs"]) > 12:
+            continue
         for op, tsel in operations(cfg):
             out = outside(cfg, op, tsel)
             if out is None:
@@ -177,6 +187,13 @@ def history_cases():
 
 def operations(cfg):
     defs = [d for d in cfg["defs"]]
+    if len(defs) > 12:  # large configurations: the namespace, its first and its last target
+        yield ("rn", None)
+        if not cfg.get("rn_only"):
+            troot = [i for i, d in enumerate(defs) if d["dir"] == cfg["root"]]
+            yield ("rf", [troot[0]])
+            yield ("rf", [troot[-1]])
+        return
     yield ("rn", None)
     troot = [i for i, d in enumerate(defs) if d["dir"] == cfg["root"]]
     for i in troot:
@@ -191,6 +208,8 @@ def outside(cfg, op, tsel):
         if op == "rf" and tsel != [0]:
             return None
         if op == "rn" and cfg.get("rf_only"):
+            return None
+        if op == "rf" and cfg.get("rn_only"):
             return None
         return list(cfg["outside_override"])
     defs = cfg["defs"]
@@ -223,11 +242,14 @@ def cases(shard, tier):
         return
     if shard["kind"] == "config":
         cfg = all_configs()[shard["config"]]
+        big = len(cfg["defs"]) > 12
         for op, tsel in operations(cfg):
             out = outside(cfg, op, tsel)
             if out:
+                if big:  # every outside definition of the lookup roots, three of the targets' own root
+                    out = [i for i in out if cfg["defs"][i]["dir"] != cfg["root"]] + [i for i in out if cfg["defs"][i]["dir"] == cfg["root"]][:3]
                 for i in out:
-                    yield {"config": shard["config"], "op": op, "targets": tsel, "outside": i}
+                    yield {"config": shard["config"], "op": op, "targets": tsel, "outside": i, **({"few": True} if big else {})}
     else:
         for k, (name, cfg) in enumerate(graph_configs()):
             if k % shard["parts"] != shard["part"]:
@@ -357,15 +379,20 @@ def check_case(case, R: engine.Acc):
         if vfile in ref_opened:
             R.violation("outside-file-opened", "a definition outside the closure is never opened", {**case, "replacement": None}, observed=ref_opened)
             return
-        reps = REPLACEMENTS if not case.get("few") else [REPLACEMENTS[i] for i in (2, 7, 20, 22, 24, 27)]
+        reps = REPLACEMENTS if not case.get("few") else [REPLACEMENTS[i] for i in (2, 7, 20, 22, 24, 27, 42)]
         if "replacement" in case and case["replacement"] is not None:
             reps = [REPLACEMENTS[case["replacement"]]]
         original = files[vfile]
         for rep in reps:
             ri = REPLACEMENTS.index(rep)
-            text = rep.replace("SELF_PLACEHOLDER", "%s.%d.%d" % (victim["name"], victim["ver"][0], victim["ver"][1]))
-            with open(base / vfile, "w", encoding="utf-8", newline="") as f:
-                f.write(text)
+            if isinstance(rep, bytes):  # a file that is not even text
+                text = rep
+                with open(base / vfile, "wb") as f:
+                    f.write(rep)
+            else:
+                text = rep.replace("SELF_PLACEHOLDER", "%s.%d.%d" % (victim["name"], victim["ver"][0], victim["ver"][1]))
+                with open(base / vfile, "w", encoding="utf-8", newline="") as f:
+                    f.write(text)
             one = {k: v for k, v in case.items() if k != "few"}
             one["replacement"] = ri
             R.case([case["config"], case["op"], case["targets"], case["outside"], ri], nontrivial=(text != original), sample=(ri == 22 and len(R.samples) < 3))
